@@ -56,6 +56,35 @@ extern "C"
     char *igc_strndup(const char *, size_t);
     char *igc_strlwr(char *);
     char *igc_strupr(char *);
+    // C08_hdr.c: the same functions called through the names the bundled <string.h> / <strings.h> provide, every
+    // argument an expression with a side effect; ev[k] counts the evaluations of argument k
+    void *igc_vp_hdr_memcpy(void *, const void *, size_t, unsigned *);
+    void *igc_vp_hdr_memmove(void *, const void *, size_t, unsigned *);
+    void *igc_vp_hdr_memset(void *, int, size_t, unsigned *);
+    int igc_vp_hdr_memcmp(const void *, const void *, size_t, unsigned *);
+    void *igc_vp_hdr_memchr(const void *, int, size_t, unsigned *);
+    void *igc_vp_hdr_memrchr(const void *, int, size_t, unsigned *);
+    size_t igc_vp_hdr_strlen(const char *, unsigned *);
+    size_t igc_vp_hdr_strnlen(const char *, size_t, unsigned *);
+    char *igc_vp_hdr_strcpy(char *, const char *, unsigned *);
+    char *igc_vp_hdr_strncpy(char *, const char *, size_t, unsigned *);
+    size_t igc_vp_hdr_strlcpy(char *, const char *, size_t, unsigned *);
+    char *igc_vp_hdr_strcat(char *, const char *, unsigned *);
+    char *igc_vp_hdr_strncat(char *, const char *, size_t, unsigned *);
+    int igc_vp_hdr_strcmp(const char *, const char *, unsigned *);
+    int igc_vp_hdr_strncmp(const char *, const char *, size_t, unsigned *);
+    int igc_vp_hdr_strcasecmp(const char *, const char *, unsigned *);
+    int igc_vp_hdr_strncasecmp(const char *, const char *, size_t, unsigned *);
+    char *igc_vp_hdr_strchr(const char *, int, unsigned *);
+    char *igc_vp_hdr_strrchr(const char *, int, unsigned *);
+    char *igc_vp_hdr_strchrnul(const char *, int, unsigned *);
+    char *igc_vp_hdr_strstr(const char *, const char *, unsigned *);
+    char *igc_vp_hdr_strcasestr(const char *, const char *, unsigned *);
+    size_t igc_vp_hdr_strspn(const char *, const char *, unsigned *);
+    size_t igc_vp_hdr_strcspn(const char *, const char *, unsigned *);
+    char *igc_vp_hdr_strpbrk(const char *, const char *, unsigned *);
+    char *igc_vp_hdr_strlwr(char *, unsigned *);
+    char *igc_vp_hdr_strupr(char *, unsigned *);
 }
 
 using namespace vpbt;
@@ -1928,6 +1957,164 @@ void f_all_long(Src &s, Case &c)
     f_all(s, c);
     c.label("long_operands");
 }
+// ------------------------------------------------------------ through the bundled headers
+// Small operands (the per-function targets own lengths, alignment and bounds); what is judged here is the entry point a
+// caller of the bundled headers gets: same answer as the host function, every argument expression evaluated once.
+void f_via_header(Src &s, Case &c)
+{
+    static const char *names[27] = {"memcpy", "memmove", "memset", "memcmp", "memchr", "memrchr", "strlen", "strnlen", "strcpy",
+                                    "strncpy", "strlcpy", "strcat", "strncat", "strcmp", "strncmp", "strcasecmp", "strncasecmp", "strchr",
+                                    "strrchr", "strchrnul", "strstr", "strcasestr", "strspn", "strcspn", "strpbrk", "strlwr", "strupr"};
+    int fi = (int)s.below(27);
+    const char *fn = names[fi];
+    int style = (int)s.below(5);
+    auto gen = [&](size_t maxn) {
+        std::string t;
+        for (size_t k = s.below(maxn + 1); k > 0; k--)
+            t.push_back((char)mapb(s.u8(), style, true));
+        return t;
+    };
+    std::string a = gen(20), b = s.below(3) == 0 ? a : gen(s.coin() ? 3 : 20);
+    if (s.below(4) == 0 && !a.empty() && b != a)
+        b = a.substr(s.below(a.size())) + (s.coin() ? "" : "b"); // shares a suffix / is found inside
+    if (s.below(4) == 0 && !b.empty())
+        b[0] = a.empty() ? b[0] : a[0]; // same first character
+    int ch = a.empty() || s.below(3) == 0 ? (int)mapb(s.u8(), style, false) : (unsigned char)a[s.below(a.size())];
+    size_t n = s.below(24);
+    // buffers: 64 bytes each, operands at offset 8; igris side and host side
+    char ia[96], ib[96], ha[96], hb[96];
+    memset(ia, 0, sizeof ia);
+    memset(ib, 0, sizeof ib);
+    memcpy(ia + 8, a.data(), a.size());
+    memcpy(ib + 8, b.data(), b.size());
+    memcpy(ha, ia, sizeof ia);
+    memcpy(hb, ib, sizeof ib);
+    char *A = ia + 8, *B = ib + 8, *HA = ha + 8, *HB = hb + 8;
+    size_t nmem = std::min<size_t>(n, 24);
+    unsigned ev[3] = {0, 0, 0};
+    int nargs = 2;
+    long got = 0, want = 0;
+    bool sign_only = false;
+    c.log("%s via the bundled header: a='%s' b='%s' ch=0x%02x n=%zu", fn, hexdump(a.data(), a.size(), 24).c_str(), hexdump(b.data(), b.size(), 24).c_str(), ch, n);
+    switch (fi)
+    {
+    case 0:
+        nargs = 3, got = poff(igc_vp_hdr_memcpy(A, B, nmem, ev), A), want = poff(memcpy(HA, HB, nmem), HA);
+        break;
+    case 1:
+        nargs = 3, got = poff(igc_vp_hdr_memmove(A, A + 1, nmem, ev), A), want = poff(memmove(HA, HA + 1, nmem), HA);
+        break;
+    case 2:
+        nargs = 3, got = poff(igc_vp_hdr_memset(A, ch, nmem, ev), A), want = poff(memset(HA, ch, nmem), HA);
+        break;
+    case 3:
+        nargs = 3, sign_only = true, got = igc_vp_hdr_memcmp(A, B, nmem, ev), want = memcmp(HA, HB, nmem);
+        break;
+    case 4:
+        nargs = 3, got = poff(igc_vp_hdr_memchr(A, ch, nmem, ev), A), want = poff(memchr(HA, ch, nmem), HA);
+        break;
+    case 5:
+        nargs = 3, got = poff(igc_vp_hdr_memrchr(A, ch, nmem, ev), A), want = poff(memrchr(HA, ch, nmem), HA);
+        break;
+    case 6:
+        nargs = 1, got = (long)igc_vp_hdr_strlen(A, ev), want = (long)strlen(HA);
+        break;
+    case 7:
+        got = (long)igc_vp_hdr_strnlen(A, n, ev), want = (long)strnlen(HA, n);
+        break;
+    case 8:
+        got = poff(igc_vp_hdr_strcpy(A, B, ev), A), want = poff(strcpy(HA, HB), HA);
+        break;
+    case 9:
+        nargs = 3, got = poff(igc_vp_hdr_strncpy(A, B, n, ev), A), want = poff(strncpy(HA, HB, n), HA);
+        break;
+    case 10:
+    {
+        nargs = 3, got = (long)igc_vp_hdr_strlcpy(A, B, n, ev), want = (long)b.size();
+        if (n)
+        {
+            size_t k = std::min(b.size(), n - 1);
+            memcpy(HA, HB, k);
+            HA[k] = 0;
+        }
+        break;
+    }
+    case 11:
+        got = poff(igc_vp_hdr_strcat(A, B, ev), A), want = poff(strcat(HA, HB), HA);
+        break;
+    case 12:
+        nargs = 3, got = poff(igc_vp_hdr_strncat(A, B, n, ev), A), want = poff(strncat(HA, HB, n), HA);
+        break;
+    case 13:
+        sign_only = true, got = igc_vp_hdr_strcmp(A, B, ev), want = strcmp(HA, HB);
+        break;
+    case 14:
+        nargs = 3, sign_only = true, got = igc_vp_hdr_strncmp(A, B, n, ev), want = strncmp(HA, HB, n);
+        break;
+    case 15:
+        sign_only = true, got = igc_vp_hdr_strcasecmp(A, B, ev), want = strcasecmp(HA, HB);
+        break;
+    case 16:
+        nargs = 3, sign_only = true, got = igc_vp_hdr_strncasecmp(A, B, n, ev), want = strncasecmp(HA, HB, n);
+        break;
+    case 17:
+        got = poff(igc_vp_hdr_strchr(A, ch, ev), A), want = poff(strchr(HA, ch), HA);
+        break;
+    case 18:
+        got = poff(igc_vp_hdr_strrchr(A, ch, ev), A), want = poff(strrchr(HA, ch), HA);
+        break;
+    case 19:
+        got = poff(igc_vp_hdr_strchrnul(A, ch, ev), A), want = poff(strchrnul(HA, ch), HA);
+        break;
+    case 20:
+        got = poff(igc_vp_hdr_strstr(A, B, ev), A), want = poff(strstr(HA, HB), HA);
+        break;
+    case 21:
+        got = poff(igc_vp_hdr_strcasestr(A, B, ev), A), want = poff(strcasestr(HA, HB), HA);
+        break;
+    case 22:
+        got = (long)igc_vp_hdr_strspn(A, B, ev), want = (long)strspn(HA, HB);
+        break;
+    case 23:
+        got = (long)igc_vp_hdr_strcspn(A, B, ev), want = (long)strcspn(HA, HB);
+        break;
+    case 24:
+        got = poff(igc_vp_hdr_strpbrk(A, B, ev), A), want = poff(strpbrk(HA, HB), HA);
+        break;
+    case 25:
+    case 26:
+    {
+        nargs = 1;
+        got = poff(fi == 25 ? igc_vp_hdr_strlwr(A, ev) : igc_vp_hdr_strupr(A, ev), A);
+        want = 0;
+        for (char *q = HA; *q; q++)
+            if (fi == 25 ? (*q >= 'A' && *q <= 'Z') : (*q >= 'a' && *q <= 'z'))
+                *q = (char)(*q ^ 0x20);
+        break;
+    }
+    }
+    c.label(fn);
+    bool high = false;
+    for (char x : a + b)
+        high |= (x & 0x80) != 0;
+    if (high)
+        c.label("high_bytes");
+    c.nontrivial = !a.empty() && !b.empty();
+    if (sign_only)
+        got = sgn((int)got), want = sgn((int)want);
+    if (got != want)
+        fail(fn, "header_result", fmt("through the bundled header: result %s, the definition gives %s", sign_only ? fmt("%ld", got).c_str() : offs(got).c_str(),
+                                      sign_only ? fmt("%ld", want).c_str() : offs(want).c_str()));
+    if (memcmp(ia, ha, sizeof ia) != 0 || memcmp(ib, hb, sizeof ib) != 0)
+        fail(fn, "header_bytes", fmt("through the bundled header: first operand afterwards %s, the definition leaves %s", hexdump(ia, 40, 40).c_str(), hexdump(ha, 40, 40).c_str()));
+    for (int k = 0; k < nargs; k++)
+        if (ev[k] != 1)
+            fail(fn, "header_argument_evaluations", fmt("argument %d of %s() was evaluated %u times (ISO C 7.1.4: exactly once)", k + 1, fn, ev[k]));
+}
+VP_TARGET("via_header", f_via_header,
+          "27 functions called through the names the bundled <string.h> / <strings.h> provide (harness/C08_hdr.c is compiled against compat/libc/include), every argument an "
+          "expression with a side effect: result and operand bytes as the host function leaves them, and each argument evaluated exactly once; operands of 0..20 bytes, "
+          "equal / suffix-sharing / same-first-character pairs over-weighted; non-trivial = both operands non-empty");
 VP_TARGET("span_soak", f_span_soak,
           "strspn / strcspn / strpbrk: one call with a first set, then 65534 .. 131071 calls on the same string with a second set (half of the time the first set holds a character of "
           "the string that the second lacks): every call must answer like the host");
